@@ -544,6 +544,35 @@ theorem dropFold_keeps (owner : String) (id : Nat) (l : List (String × Tbl)) :
       refine ⟨?_, h2⟩
       rw [List.any_cons, h1]; simp
 
+theorem reg_all_complete : ∀ r : Reg, r ∈ Reg.all := by intro r; cases r <;> decide
+
+/-- the decision table behind "a half's `Drop` only touches its own tables": every table a `Drop` removes keys
+    from is registered in ONLY by methods of the dropped type -/
+theorem drop_tables_exclusive_table :
+    dropCleans.all (fun p => Reg.all.all (fun r => registersIn r != p.2 || Reg.owner r == p.1)) = true := by decide
+
+theorem drop_tables_exclusive {owner : String} {t : Tbl} (h : dropCleans.any (fun p => p.1 == owner && p.2 == t) = true)
+    (r : Reg) (hr : registersIn r = t) : Reg.owner r = owner := by
+  rw [List.any_eq_true] at h
+  obtain ⟨p, hp, hpo⟩ := h
+  simp only [Bool.and_eq_true, beq_iff_eq] at hpo
+  have := List.all_eq_true.mp drop_tables_exclusive_table p hp
+  have := List.all_eq_true.mp this r (reg_all_complete r)
+  simp only [Bool.or_eq_true, bne_iff_ne, ne_eq, beq_iff_eq] at this
+  rcases this with h1 | h1
+  · exact absurd (hr.trans hpo.2.symm) h1
+  · rw [h1, hpo.1]
+
+/-- dropping one half of a stream keeps every entry registered by a method of another type — in particular the
+    waker of a task parked in `SendStream::stopped()` / `write` when the `RecvStream` half of the same
+    bidirectional stream is dropped, and vice versa -/
+theorem dropStream_keeps_other_half (s : St) (owner : String) (id : Nat) (r : Reg) (e : Entry)
+    (he : e ∈ s.tabs (registersIn r)) (ho : Reg.owner r ≠ owner) :
+    e ∈ (s.dropStream owner id).tabs (registersIn r) := by
+  apply dropFold_keeps _ _ _ _ _ _ he
+  intro ⟨h1, _⟩
+  exact ho (drop_tables_exclusive h1 r rfl)
+
 theorem inv_dropStream {W : World} {send : Bool} {id : Nat} (hi : Inv W)
     (ha : admissible W (.dropStream send id) = true) : Inv (W.step (.dropStream send id)).1 := by
   intro y hy
@@ -553,10 +582,11 @@ theorem inv_dropStream {W : World} {send : Bool} {id : Nat} (hi : Inv W)
   have hay := ha y hy
   apply dropFold_keeps _ _ _ _ _ _ hye
   intro ⟨h1, h2⟩
-  simp only [Bool.not_eq_true', Bool.and_eq_false_iff] at hay
+  have ho := drop_tables_exclusive h1 y.r rfl
+  simp only [Bool.not_eq_true', Bool.and_eq_false_iff, beq_eq_false_iff_ne, ne_eq] at hay
   rcases hay with h | h
-  · rw [h1] at h; cases h
-  · simp [h2] at h
+  · exact h ho
+  · exact h h2
 
 theorem closedPoll_st (W : World) (w : Nat) : (W.step (.closedPoll w)).1.st = W.st ∧
     (W.step (.closedPoll w)).1.owed = W.owed := by
